@@ -223,6 +223,9 @@ func (c *C10) Run(x *engine.Ctx) *engine.Violation {
 		if t.Chance(1, 10) {
 			a = c.sp.G1[0] // the generator (1,2): 31 leading zero bytes in both coordinates
 		}
+		if t.Chance(1, 12) {
+			cc = a // A and C the same point
+		}
 		p, err := gtier.FromCoordinates(gtier.CoordsOfPoints(a, b, cc))
 		if err != nil {
 			panic(err)
